@@ -19,4 +19,5 @@ var Registry = map[string]func(Args) error{
 	"write":       Write,
 	"immut":       Immut,
 	"dict":        Dict,
+	"robust":      Robust,
 }
